@@ -59,7 +59,7 @@ func genP(t *rapid.T) PScript {
 	s.Payload = genPayload(t, s.Signal)
 	s.Backoff = genBackoff(t)
 	if s.Backoff.MaxElapsedMS != 0 {
-		s.Backoff.MaxElapsedMS = 60000
+		s.Backoff.MaxElapsedMS = farMS
 	}
 	if rapid.Bool().Draw(t, "timeout?") {
 		s.TimeoutMS = rapid.IntRange(5, 40).Draw(t, "timeout_ms")
@@ -84,14 +84,14 @@ func genP(t *rapid.T) PScript {
 		}
 		if !control && i == at {
 			if longInitial {
-				s.Backoff.InitialUS = int64(rapid.IntRange(10_000_000, 14_000_000).Draw(t, "long_initial_us"))
+				s.Backoff.InitialUS = int64(rapid.IntRange(5_400_000_000, 7_200_000_000).Draw(t, "long_initial_us"))
 				s.Backoff.MaxIntUS = s.Backoff.InitialUS
 				if s.Backoff.RandX100 > 30 {
 					s.Backoff.RandX100 = 30
 				}
 			} else {
 				o.Throttle = true
-				o.ThrottleUS = int64(rapid.IntRange(8_000_000, 12_000_000).Draw(t, "long_throttle_us"))
+				o.ThrottleUS = int64(rapid.IntRange(3_600_000_000, 7_200_000_000).Draw(t, "long_throttle_us"))
 			}
 		}
 		s.Outcomes = append(s.Outcomes, o)
@@ -119,7 +119,7 @@ func genP(t *rapid.T) PScript {
 
 func runP(s PScript) (nontrivial bool, key string, f *vt.Finding) {
 	key = scriptKey(s)
-	cP.HangGuard(90*time.Second, s, "hang/shutdown-persist", func() { nontrivial, f = runPInner(&s) })
+	cP.HangGuard(150*time.Second, s, "hang/shutdown-persist", func() { nontrivial, f = runPInner(&s) })
 	return nontrivial, key, f
 }
 
@@ -281,12 +281,12 @@ func runPInner(s *PScript) (bool, *vt.Finding) {
 	if parked {
 		select {
 		case <-w2.first:
-			for limit := time.Now().Add(10 * time.Second); compPending && compBack() == 0 && time.Now().Before(limit); {
+			for limit := time.Now().Add(30 * time.Second); compPending && compBack() == 0 && time.Now().Before(limit); {
 				time.Sleep(500 * time.Microsecond)
 			}
 			// leave a little room for a duplicate to show up
 			time.Sleep(2 * time.Millisecond)
-		case <-time.After(10 * time.Second):
+		case <-time.After(30 * time.Second):
 		}
 	} else {
 		select {
